@@ -270,6 +270,10 @@ def install(prog):
     def int_from_str_radix(it, m, a):
         return parse_int(it, list(as_str(it, a[0]).chars()), a[1], m.group(1))
     prog.model(r'core::num::<impl ' + INT + r'>::from_str_radix')(int_from_str_radix)
+    # models_core registers an older unsigned-only model first: exact entries take precedence
+    import re as _re
+    for _ty in ('i8', 'i16', 'i32', 'i64', 'isize', 'u8', 'u16', 'u32', 'u64', 'usize'):
+        prog.exact['core::num::<impl %s>::from_str_radix' % _ty] = (lambda ty: lambda it, m, a: parse_int(it, list(as_str(it, a[0]).chars()), a[1], ty))(_ty)
     prog.model(r'<' + INT + r' as (?:num::|num_traits::)?Num>::from_str_radix')(int_from_str_radix)
 
     @M(r'<BigInt as (?:num::|num_traits::)?Num>::from_str_radix|BigInt::from_str_radix')
@@ -348,6 +352,25 @@ def install(prog):
                 return mk_ok(float(text))
             except ValueError:
                 return err('Invalid')
+        if radix == 10:
+            # str::parse::<f64>: decide the SYNTAX on the character classes (forking on symbolic chars); the value of an
+            # accepted literal is an arbitrary double
+            cls = ''
+            for ch, _ in cs:
+                ch = deref(ch)
+                if not is_sym(ch): cls += chr(ch) if ch < 128 else '?'; continue
+                if known_digit(it, ch, 10) is not None: cls += '7'; continue
+                got = None
+                for k, test in (('7', z3.And(z3.UGE(ch, 48), z3.ULE(ch, 57))), ('.', ch == 46), ('e', z3.Or(ch == 101, ch == 69)), ('+', ch == 43), ('-', ch == 45),
+                                ('i', z3.Or(ch == 105, ch == 73)), ('n', z3.Or(ch == 110, ch == 78)), ('f', z3.Or(ch == 102, ch == 70)), ('a', z3.Or(ch == 97, ch == 65)),
+                                ('t', z3.Or(ch == 116, ch == 84)), ('y', z3.Or(ch == 121, ch == 89))):
+                    if it.branch(test):
+                        got = k; break
+                cls += got or '?'
+            import re
+            if not re.fullmatch(r'[+-]?(inf|infinity|nan|(\d+\.?\d*([e][+-]?\d+)?|\.\d+([e][+-]?\d+)?))', cls, re.I): return err('Invalid')
+            it.fresh_n += 1
+            return mk_ok(z3.FP('parsed_f64_%d_%d' % (len(it.taken), it.fresh_n), z3.Float64()))
         body = cs[1:] if is_char(it, cs[0][0], '-') else cs
         if not body: return err('Empty')
         # digits of the radix only: an inexact number whose value is not claimed (an arbitrary double)
@@ -356,8 +379,9 @@ def install(prog):
             if known_digit(it, ch, radix) is not None: continue
             d = to_digit(it, ch, radix)
             if d.var == 0:
-                if getattr(it.prog, 'opaque_float_math', False):
-                    # panic-freedom harnesses: the library parser cannot panic; both outcomes are possible
+                if True:
+                    # radix other than 10 with a fraction / exponent marker or an invalid digit: the outcome of the library parser is not
+                    # modelled -- both are explored (an accepted literal is an arbitrary double)
                     if it.choose(2) == 1: return err('Invalid')
                     it.fresh_n += 1
                     return mk_ok(z3.FP('parsed_f64_%d_%d' % (len(it.taken), it.fresh_n), z3.Float64()))
